@@ -93,6 +93,50 @@ pipeline P(in int[] xs, out int[] ys, out map<int> zs,)
 }
 call P(xs = [1, 0777, -9223372036854775808, 9223372036854775807],)
 `,
+	`filetype tar.gz;
+stage D(
+    in  int x,
+    in  tar.gz f,
+    out int,
+    out tar.gz g,
+    src comp "d",
+)
+stage E(
+    in  int x,
+    in  tar.gz f,
+    out int "help" "name",
+    src comp "e",
+)
+pipeline W(
+    in  int x,
+    in  tar.gz f,
+    out int y,
+    out D d,
+)
+{
+    call D(
+        * = self,
+    )
+    call E(
+        x = D,
+        * = self,
+    )
+    call E as E2(
+        x = D.default,
+        f = D.g,
+    ) using (
+        disabled = self.x,
+    )
+    return (
+        y = E,
+        d = D,
+    )
+}
+call W(
+    x = 1,
+    f = "a.tar.gz",
+)
+`,
 	`{"a": [1, 2.5, "s", null, true, {x: 1}], "b": {"c": -1e-3}}`,
 	`[1, [2, [3, [4, [5]]]], "\x41\101é\U0001F600\a\b\f\n\r\t\v"]`,
 	`@include "a.mro"
@@ -129,8 +173,18 @@ func genNearValid(t *rapid.T, seeds []seedFile) (seedFile, []byte, []string) {
 	n := rapid.IntRange(0, 3).Draw(t, "nEdits")
 	for i := 0; i < n && len(toks) > 0; i++ {
 		pos := rapid.IntRange(0, len(toks)-1).Draw(t, "pos")
-		kind := rapid.SampledFrom([]string{"replace", "replace", "replace-same-class", "replace-same-class", "delete", "dup", "insert", "swap", "nest", "typedims"}).Draw(t, "edit")
+		kind := rapid.SampledFrom([]string{"replace", "replace", "replace-same-class", "replace-same-class", "delete", "dup", "insert", "swap", "nest", "typedims", "transplant-line", "transplant-line"}).Draw(t, "edit")
 		switch kind {
+		case "transplant-line":
+			// a whole line of some seed (a binding, a parameter, a modifier,
+			// a return, a directive) put in front of a line of this text:
+			// legal constructs in contexts that do not expect them
+			donor := seeds[rapid.IntRange(0, len(seeds)-1).Draw(t, "donor")]
+			dl := strings.Split(string(donor.data), "\n")
+			line := dl[rapid.IntRange(0, len(dl)-1).Draw(t, "donorLine")]
+			for ; pos > 0 && !strings.Contains(toks[pos-1], "\n"); pos-- {
+			}
+			toks = append(toks[:pos], append([]string{line + "\n"}, toks[pos:]...)...)
 		case "replace":
 			toks[pos] = rapid.SampledFrom(hostileTokens).Draw(t, "hostile")
 		case "replace-same-class":
